@@ -77,7 +77,7 @@ def step_rules(g, st, ev):
         if REMAIN.get(pin) == 1 and not cs:
             bad.append('B last PIN attempt accepted without a correct CAN since the second wrong PIN')
     if ev == 'pin_bad':
-        c += 1
+        c = min(c + 1, 4)          # saturating: the rules only distinguish 0..3 and "more than three" (keeps the product finite on ANY graph)
         if REMAIN.get(pin) == 2:
             cs = False
         if c > 3:
